@@ -12,7 +12,7 @@ import (
 func init() {
 	register(&propCheck{
 		id:   "C17",
-		pkgs: []string{"internal/mod/modload", "internal/mod/modpkgload", "internal/mod/modrequirements", "mod/modfile", "internal/mod/modimports"},
+		pkgs: []string{"internal/mod/modload", "internal/mod/modpkgload", "internal/mod/modrequirements", "mod/modfile", "internal/mod/modimports", "internal/mod/modfiledata", "cmd/cue/cmd"},
 		run:  checkC17,
 		about: "C17 (cue mod tidy reaches a correct fixpoint; module files round-trip): decides (a) capture discipline of every closure that modload/modpkgload/modrequirements hand to par.Queue.Add / go: a captured variable written by such a closure is accessed under one mutex, is an atomic/sync type, a per-iteration variable, or a slice element indexed per iteration; " +
 			"(b) order independence of what is iterated: every range over a map in tidy.go, query.go, update.go, modpkgload, modrequirements and modfile either has no order-sensitive sink or sorts the collected slice before use (reviewed exceptions carry their reason); " +
@@ -210,6 +210,8 @@ func checkC17(c *Ctx) {
 	r := g.gate(eq, acc, nil, -1)
 	_ = r
 	c17RootsFixpoint(c)
+	c17StableExitReconcilesRoots(c)
+	c17SchemaStructAgreement(c)
 	c17FileFilter(c)
 	c17ClosurePrivateState(c)
 }
